@@ -83,10 +83,12 @@ type respScript struct {
 	pads       []int
 	stderr     []string // stderr chunks, interleaved
 	stderrLate int      // this many of them come only after the record that ends stdout
+	burst      int      // this many further stderr records in a row right after the first stdout record
 	hostile    string   // C19: kind of malformed output ("" = conforming)
 }
 
 type fcgiRig struct {
+	twoRules    bool
 	w           *World
 	c           *sim.Ctl
 	st          *sim.Stream
@@ -288,6 +290,12 @@ func (p *fcgiPeer) prepare() {
 			chunk = chunk[n:]
 		}
 		prev = cpos
+		if sc.burst > 0 && i == 0 {
+			// (php-fpm sends every warning line as a record of its own)
+			for k := 0; k < sc.burst; k++ {
+				recs = append(recs, fcgiRecord(fcgiStderr, p.reqID, []byte(fmt.Sprintf("BURST-%d-%d-end\n", rq.id, k)), k%3))
+			}
+		}
 		if si < len(sc.stderr) {
 			recs = append(recs, fcgiRecord(fcgiStderr, p.reqID, []byte(sc.stderr[si]), (i*37)%256))
 			si++
@@ -382,7 +390,7 @@ func runFcgi(mode string) sim.RigFunc {
 		defer os.RemoveAll(tmp)
 		r.root = filepath.Join(tmp, "root")
 		os.MkdirAll(filepath.Join(r.root, "app", "dir"), 0755)
-		files := map[string]string{"app/x.php": "STATIC-TOKEN-x", "app/Y.PHP": "STATIC-TOKEN-Y", "app/index.php": "STATIC-TOKEN-index", "app/dir/index.php": "STATIC-TOKEN-dirindex", "app/s.txt": "PLAIN-TEXT-s"}
+		files := map[string]string{"app/x.php": "STATIC-TOKEN-x", "app/Y.PHP": "STATIC-TOKEN-Y", "app/index.php": "STATIC-TOKEN-index", "app/dir/index.php": "STATIC-TOKEN-dirindex", "app/s.txt": "PLAIN-TEXT-s", "app/tool.cgi": "STATIC-TOKEN-tool"}
 		for n, content := range files {
 			os.WriteFile(filepath.Join(r.root, n), []byte(content), 0644)
 		}
@@ -402,9 +410,16 @@ func runFcgi(mode string) sim.RigFunc {
 			c.Params["read_timeout"] = "5s"
 			r.readTimeout = 5 * time.Second
 		}
-		b.WriteString("\t}\n}\n")
+		b.WriteString("\t}\n")
+		r.twoRules = st.Draw(2) == 0
+		if r.twoRules {
+			// a second rule on the same base path, for another kind of script
+			b.WriteString("\tfastcgi /app 10.8.0.1:9000 {\n\t\text .cgi\n\t\tsplit .cgi\n\t\tenv APP_ENV prod\n\t\tenv REQ_HOST {host}\n\t}\n")
+		}
+		b.WriteString("}\n")
 		text := b.String()
 		c.Params["prefix"] = r.prefix
+		c.Params["two_rules"] = r.twoRules
 
 		fastcgi.VerifDial = func(ctx context.Context, network, address string) (net.Conn, error) {
 			if r.cleanup {
@@ -482,12 +497,25 @@ var fcgiPaths = []struct{ path, script, info string }{
 	{"/app/dir/", "/app/dir/index.php", ""},
 	{"/app/nofile.php", "/app/nofile.php", ""},
 	{"/app/x.php/", "/app/x.php", "/"},
+	{"/app/x.php/docs/setup.php", "/app/x.php", "/docs/setup.php"}, // the split string occurs again in the path info
+	{"/app/x.php/x.php", "/app/x.php", "/x.php"},
+}
+
+// scripts of a second rule on the same base path (ext .cgi, split .cgi); only used when that rule is configured
+var fcgiPaths2 = []struct{ path, script, info string }{
+	{"/app/tool.cgi", "/app/tool.cgi", ""},
+	{"/app/tool.cgi/extra", "/app/tool.cgi", "/extra"},
+	{"/app/TOOL.CGI", "", ""},
 }
 
 func (r *fcgiRig) addReq(i int) {
 	st := r.st
 	q := &freq{id: i, expectFcgi: true}
 	p := fcgiPaths[st.Draw(len(fcgiPaths))]
+	if r.twoRules && st.Draw(3) == 0 {
+		p = fcgiPaths2[st.Draw(len(fcgiPaths2))]
+		r.c.Probe("script-of-the-second-matching-rule")
+	}
 	q.path, q.scriptName, q.pathInfo = p.path, p.script, p.info
 	q.method = []string{"GET", "POST", "POST", "PUT", "HEAD", "DELETE", "OPTIONS"}[st.Draw(7)]
 	q.query = fmt.Sprintf("a=%d&rid=%d&z=%%20x", st.Draw(100), i)
@@ -560,6 +588,10 @@ func (r *fcgiRig) addReq(i int) {
 	ne := st.Draw(3)
 	for k := 0; k < ne; k++ {
 		sc.stderr = append(sc.stderr, fmt.Sprintf("STDERR-%d-%d warning line\n", i, k))
+	}
+	if len(sc.cuts) > 0 && st.Draw(8) == 0 {
+		sc.burst = []int{99, 100, 150, 400}[st.Draw(4)]
+		r.c.Probe("stderr-burst-inside-the-header-block")
 	}
 	if len(sc.stderr) > 0 && st.Draw(3) == 0 {
 		sc.stderrLate = 1 + st.Draw(len(sc.stderr))
@@ -757,6 +789,12 @@ func (r *fcgiRig) judge() {
 		}
 		if q.method != "HEAD" && !bytes.Equal(resp.Body, sc.body) {
 			c.Violate("C13/body-differs", fmt.Sprintf("cuts=%d", len(sc.cuts)), "request %d: responder body %d bytes, client got %d bytes (first difference at %d; record cuts %v, pads %v)", q.id, len(sc.body), len(resp.Body), firstDiff(resp.Body, sc.body), sc.cuts, sc.pads)
+		}
+		for k := 0; k < sc.burst; k++ {
+			if line := fmt.Sprintf("BURST-%d-%d-end", q.id, k); !bytes.Contains(errLog, []byte(line)) {
+				c.Violate("C13/stderr-not-logged", "burst", "request %d (%s %s, response status %d): stderr record %d of a burst of %d in a row, sent while the header block was still incomplete, is missing from the error log (client got status %d)", q.id, q.method, q.path, sc.status, k, sc.burst, resp.Status)
+				break
+			}
 		}
 		for _, e := range sc.stderr {
 			line := strings.TrimSpace(e)
